@@ -681,8 +681,8 @@ func (w *world) runEnvOnce(in envInput) (gen.Case, bool) {
 	s := w.s
 	// watchdog: a case normally takes milliseconds (a few seconds when the deployment wait
 	// times out); if the core gets stuck, say where and give up instead of hanging the check
-	wd := time.AfterFunc(25*time.Second, func() {
-		fmt.Fprintf(os.Stderr, "h13: environment %d did not finish within 25 s; goroutine dump follows\n", w.seq)
+	wd := time.AfterFunc(12*time.Second, func() {
+		fmt.Fprintf(os.Stderr, "h13: environment %d did not finish within 12 s; goroutine dump follows\n", w.seq)
 		_ = pprof.Lookup("goroutine").WriteTo(os.Stderr, 1)
 		os.Exit(3)
 	})
